@@ -133,6 +133,7 @@ Proof.
   assert (HI1 : RInvC cfg st1) by (apply RInv_set_wills; exact HI).
   assert (HD1 : DevEI st1) by (eapply dfr_DevE; [exact HD|dfr_triv]).
   match goal with |- wpd (if ?b then _ else _) _ => destruct b end; [exact HD1|].
+  match goal with |- wpd (if ?b then _ else _) _ => destruct b end; [exact HD1|].
   match goal with |- context [retain_update st1 ?t ?p ?pr] =>
     destruct (retain_update_spec cfg st1 t p pr HI1) as [HI2 F2];
     pose proof (retain_update_dev st1 t p pr []) as D2 end.
